@@ -163,7 +163,8 @@ def tx_roundtrip(case, ctx):
     with open(txt, "w") as f:
         f.write(out)
     dst = os.path.join(d, "dst.cool")
-    args = ["load", "-f", fmt, _bins_arg(d, table), txt, dst, "--temp-dir", d, "--chunksize", str(case["chunk2"])]
+    args = ["load", "-f", fmt, _bins_arg(d, table), txt, dst, "--temp-dir", d, "--chunksize", str(case["chunk2"]),
+            "--max-merge", str(case.get("max_merge", 200))]
     if mode != "symm":
         args.append("--no-symmetric-upper")
     if case["one_based"]:
